@@ -52,7 +52,20 @@ static std::string script(unsigned char fill) {
 	m->~InstanceT();
 	return t;
 }
+// a copy taken after a task report was recorded (no plan yet) carries the report: the same plan then advances on both
+static int copy_reports() {
+	Ctx ctx{1}; std::string t1, t2; trace = &t1;
+	FSM::Instance m{ctx};
+	m.immediateChangeTo<C>(); m.succeed<C>();
+	FSM::Instance c{m};
+	m.plan().change<C, A>(); c.plan().change<C, A>();
+	trace = &t1; m.update(); const std::string o1 = observe(m);
+	trace = &t2; c.update(); const std::string o2 = observe(c);
+	if (o1 != o2) { std::printf("{\"divergence\": \"copy taken after a task report behaves differently once a plan is added: original %s, copy %s\"}\n", o1.c_str(), o2.c_str()); return 1; }
+	return 0;
+}
 int main() {
+	if (copy_reports()) return 1;
 	const std::string a = script(0x00), b = script(0xFF), c = script(0xA5);
 	if (a.find("planSucceeded") != std::string::npos || a.find("planFailed") != std::string::npos) { std::printf("{\"divergence\": \"plan callback delivered on a machine to which no task was added (zero-filled memory): %s\"}\n", a.c_str()); return 1; }
 	if (a != b || a != c) { std::printf("{\"divergence\": \"behaviour depends on prior memory contents: fill 0x00 gives '%s', 0xFF gives '%s', 0xA5 gives '%s'\"}\n", a.c_str(), b.c_str(), c.c_str()); return 1; }
